@@ -2,7 +2,7 @@
 \* rounds 0..1, heights 1..2 (peer messages up to height 3), 2 peer values (1 valid, 1 invalid)
 CONSTANTS
   NV = 4
-  Power <- DrvUnitPower
+  PowerOf <- DrvPowerOf
   MaxVal = 2
   NValid = 1
   MaxRound = 1
